@@ -138,6 +138,8 @@ def run(ctx, R):
     from . import orframe
     orframe.inner_index_advance(F, R, "C09")
     dynamic_lines_keep_their_place(F, R)
+    block_choice_instruction_located_one_way(F, R)
+    exhausted_sequence_drops_its_choice_point(F, R)
 
     # ---- R1: liveness predicate clones, crate-wide --------------------------------------------------------
     n_sites = 0
@@ -454,3 +456,80 @@ def dynamic_lines_keep_their_place(F, R):
          "DynamicCodeIndices::switch_on emits the hash table only when there are two keys: a consulted `:- dynamic(v/1). v(a). v(a).` then has its choice sequence "
          "on line 1, the first assertz of another key swaps it to the end, and a call that was iterating v(a) re-enters the switch for ever "
          "((v(a), assertz(v(b)), fail ; true) does not terminate)", F.where(so[0]))
+
+
+def block_choice_instruction_located_one_way(F, R):
+    """The choice instruction through which an indexed block of a dynamic predicate is entered moves when a clause is
+    prepended to the block (it is then the prepended clause's, at the end of the code area); switch_on_term's variable
+    offset follows it. prepend_compiled_clause finds it with find_dynamic_outer_choice_instr. append_compiled_clause must
+    find it the same way: `index_loc - 1` is that instruction only until the first asserta."""
+    fns = {}
+    for name in ("append_compiled_clause", "prepend_compiled_clause"):
+        c = [p for p in F.items if p.endswith("compile::" + name)]
+        if len(c) != 1:
+            raise AnchorLost("compile::%s (%d)" % (name, len(c)))
+        fns[name] = c[0]
+    for name, fn in sorted(fns.items()):
+        body = F.hir(fn)["body"]
+        uses = [x for _, r, x in hir_calls(body) if r.endswith("compile::find_dynamic_outer_choice_instr")]
+        R.ob("C09:block-choice-instruction:%s:found-through-the-switch" % name, len(uses) >= 1,
+             "%s does not call find_dynamic_outer_choice_instr: after an asserta into an indexed block the instruction at index_loc - 1 is a derelict, and a block "
+             "threaded from it is lost by the next asserta (asserta f(_), assertz b, asserta f(a,b,c), assertz _, asserta 1: p(_,N) misses the clause of the last block)" % name, F.where(fn))
+    # in append_compiled_clause `index_loc - 1` as a code location is for static predicates only
+    body = F.hir(fns["append_compiled_clause"])["body"]
+    bad = []
+
+    def rec(n, guarded, in_key_arith):
+        if isinstance(n, list):
+            for x in n:
+                rec(x, guarded, in_key_arith)
+            return
+        if not isinstance(n, dict):
+            return
+        k = n.get("k")
+        if k == "If":
+            dyn = any(y.get("k") == "Field" and y.get("name") == "is_dynamic" for y in walk(n["cond"]))
+            rec(n["cond"], guarded, in_key_arith)
+            rec(n["then"], guarded or dyn, in_key_arith)
+            if "else" in n:
+                rec(n["else"], guarded or dyn, in_key_arith)
+            return
+        if k == "AssignOp":
+            rec(n.get("rhs"), guarded, True)
+            return
+        if k == "Binary" and n.get("op") == "Sub" and n["a"].get("k") == "Path" and res_name(n["a"]) == "index_loc" and n["b"].get("k") == "Lit" and n["b"].get("lit", {}).get("int") == "1":
+            if not guarded and not in_key_arith:
+                bad.append(n["ln"])
+        for kk, v in n.items():
+            if kk != "mac" and isinstance(v, (dict, list)):
+                rec(v, guarded, in_key_arith)
+    rec(body, False, False)
+    R.ob("C09:block-choice-instruction:append_compiled_clause:index_loc-minus-one-only-for-static", not bad,
+         "append_compiled_clause uses `index_loc - 1` as the location of the block's choice instruction without asking is_dynamic (lines %s)" % bad, F.where(fns["append_compiled_clause"]))
+
+
+def exhausted_sequence_drops_its_choice_point(F, R):
+    """indexed_try/retry keep a choice point for a later entry that is applicable by its first argument; the entry may be
+    a retracted clause. When the call comes back and find_living_dynamic finds nothing alive, the handler must remove that
+    choice point before it fails — backtrack() re-enters the frame at b."""
+    dl = repo.dispatch_loop(F)
+    h = F.hir(dl)
+    found = []
+    for m in matches_in(h["body"], src=None):
+        sc = m["scrut"]
+        if sc.get("k") == "MethodCall" and sc.get("name") == "find_living_dynamic" and len(sc.get("args", [])) == 2 \
+                and all(a.get("k") == "Field" and a.get("name") in ("oip", "iip") for a in sc["args"]):
+            found.append(m)
+    if len(found) != 1:
+        raise AnchorLost("dispatch_loop: the match on find_living_dynamic(oip, iip) (%d)" % len(found))
+    none_arms = [a for a in found[0]["arms"] if any((pat_variant(l) or "").endswith("None") for l in pat_leaves(a["pat"]))]
+    if len(none_arms) != 1:
+        raise AnchorLost("find_living_dynamic match: None arm (%d)" % len(none_arms))
+    body = none_arms[0]["body"]
+    pops = [x for x in walk(body) if x["k"] == "Assign" and x["lhs"].get("k") == "Field" and x["lhs"].get("name") == "b"
+            and any(y.get("k") == "Field" and y.get("name") == "prelude" for y in walk(x["rhs"]))]
+    trunc = [x for x in walk(body) if x["k"] == "MethodCall" and x["name"] == "truncate" and any(y.get("k") == "Field" and y.get("name") == "stack" for y in walk(x["recv"]))]
+    trust = [r for _, r, _ in hir_calls(body) if re.search(r"Machine>?::trust(_me)?$", r)]
+    R.ob("C09:dynamic-index:exhausted-sequence-drops-its-choice-point", (bool(pops) and bool(trunc)) or bool(trust),
+         "when no clause of a first-argument sequence is alive any more the handler only sets fail: the choice point that led back here stays, and backtrack() "
+         "re-enters it for ever (retract the only applicable clause behind an inapplicable living one, then call with that key)", "%s (line %s)" % (F.where(dl), none_arms[0]["ln"]))
